@@ -36,15 +36,23 @@ type Params struct {
 	BodyKind    string // "nil", "nobody", "getbody", "nogetbody", "getbody-fails-2nd"
 	MaxAttempts int
 	Outcomes    []ch.Outcome
+	// Calls > 1: Connect is called again on the same Connection after it returned for a reason other than the
+	// context (rejected response, or MaxRetries = 1 exhausted): the history of attempts simply goes on.
+	Calls int
+	Tag   string
 }
 
-func (p Params) Name() string { return fmt.Sprintf("body-%s-attempts%d", p.BodyKind, p.MaxAttempts) }
+func (p Params) Name() string {
+	return fmt.Sprintf("body-%s-attempts%d%s-calls%d", p.BodyKind, p.MaxAttempts, p.Tag, p.Calls)
+}
 
 type world struct {
 	T        *ch.Transport
 	Err      error
 	Done     bool
 	GetCalls int
+	// CallEnds: number of attempts made when the k-th Connect call returned
+	CallEnds []int
 }
 
 type plainReader struct{ r io.Reader }
@@ -94,8 +102,16 @@ func body(p Params) func() {
 			}
 			return nil
 		}, Backoff: sse.Backoff{Jitter: -1, InitialInterval: time.Millisecond}}
+		if p.Calls > 1 {
+			cl.Backoff.MaxRetries = 1
+		}
 		conn := cl.NewConnection(req)
 		w.Err = conn.Connect()
+		w.CallEnds = append(w.CallEnds, len(w.T.Attempts))
+		for k := 1; k < p.Calls && !ctx.Cancelled(); k++ {
+			w.Err = conn.Connect()
+			w.CallEnds = append(w.CallEnds, len(w.T.Attempts))
+		}
 		w.Done = true
 	}
 }
@@ -141,7 +157,13 @@ func check(p Params) func(r *vrt.Result) string {
 				res := ref.Interpret(a.Outcome.Stream, ref.Mode{RetryDispatches: true, InitialLastEventID: last, NoFlushAtEnd: a.Outcome.End != "eof"})
 				last = res.LastEventID
 			}
-			if a.Outcome.Kind == "reject" && i != len(w.T.Attempts)-1 {
+			endsCall := false
+			for _, e := range w.CallEnds {
+				if e == i+1 {
+					endsCall = true
+				}
+			}
+			if a.Outcome.Kind == "reject" && !endsCall {
 				return fmt.Sprintf("an attempt was made after the validator rejected a response: %s", desc())
 			}
 		}
@@ -231,12 +253,26 @@ func Scenarios(tier string) []run.Scenario {
 	// longer histories over a smaller alphabet: the value persists across any number of failures
 	small := []ch.Outcome{{Kind: "fail"}, {Kind: "ok", Stream: "id:a\n\n", End: "err"}, {Kind: "ok", Stream: "id:\n\n", End: "eof"}, {Kind: "ok", Stream: "data:x\n\n", End: "eof"}, {Kind: "ok", Stream: "id:d\n\nid:e", End: "eof"}}
 	add(Params{BodyKind: "getbody", MaxAttempts: n + 3, Outcomes: small})
+	// a long stream: an ID, then ~10 KB of events without one (the client's read buffer is recycled many times)
+	var sb strings.Builder
+	sb.WriteString("id:checkpoint-0001\ndata:first\n\n")
+	for i := 0; i < 400; i++ {
+		fmt.Fprintf(&sb, "event:tick\ndata: filler %d\n\n", i)
+	}
+	long := []ch.Outcome{{Kind: "ok", Stream: sb.String(), End: "err"}, {Kind: "ok", Stream: sb.String(), End: "eof"}, {Kind: "ok", Stream: sb.String() + "id:cut", End: "err", Chunk: 1},
+		{Kind: "fail"}, {Kind: "ok", Stream: "data:x\n\n", End: "eof"}, {Kind: "ok", Stream: "id:\n\n", End: "eof"}}
+	add(Params{BodyKind: "nil", MaxAttempts: n, Outcomes: long, Tag: "-long"})
+	// Connect called again on the same Connection (after a rejected response or an exhausted retry budget of one)
+	again := append(append([]ch.Outcome{}, small...), ch.Outcome{Kind: "reject"})
+	for _, bk := range []string{"nil", "getbody"} {
+		add(Params{BodyKind: bk, MaxAttempts: n + 1, Outcomes: again, Calls: 3, Tag: "-again"})
+	}
 	return out
 }
 
 var Check = &run.Check{
 	ID: "C10", Level: "model_checking",
-	Rule:        "Scenarios: the real Connect loop on the virtual clock with a scripted transport that records the Last-Event-ID header and drains the request body of every attempt; request body kinds none / NoBody / with GetBody / without GetBody / GetBody failing on its second call; inside each scenario the explorer chooses EVERY script of attempt outcomes up to the bound from {transport failure, rejected response, 200 + one of 10 streams (IDs a, empty, with NUL, none, pending at the end, two events, unterminated ID line, ...) ending cleanly or with a read error}. Oracle: fold of the WHATWG reference over the script (ID of the last dispatched event; a read error does not flush a pending event).",
+	Rule:        "Scenarios: the real Connect loop on the virtual clock with a scripted transport that records the Last-Event-ID header and drains the request body of every attempt; request body kinds none / NoBody / with GetBody / without GetBody / GetBody failing on its second call; inside each scenario the explorer chooses EVERY script of attempt outcomes up to the bound from {transport failure, rejected response, 200 + one of 10 streams (IDs a, empty, with NUL, none, pending at the end, two events, unterminated ID line, ...) ending cleanly or with a read error}. Also: a 10 KB stream whose only ID is in its first event; Connect called up to three times on one Connection (MaxRetries 1), the attempt history simply continuing. Oracle: fold of the WHATWG reference over the script (ID of the last dispatched event; a read error does not flush a pending event).",
 	Assumptions: []string{"requests do not themselves carry a Last-Event-ID header (the property's proviso)"},
 	Scenarios:   Scenarios,
 	QuickBudget: 90, ThoroughBudget: 900,
